@@ -92,6 +92,7 @@ type world struct {
 	wallet    *tssworld.Wallet
 	pool      []*sim.Account
 	reqs      []*sim.Account
+	outsider  *sim.Account
 	fee       sdk.Coins
 	moduleAcc string
 
@@ -139,7 +140,7 @@ func newWorld(c c18Case, v *pbt.Verdict) *world {
 		fail:  func(sig, format string, a ...any) { v.Failf(sig, format, a...) },
 		count: func(k string) { v.Count(k, 1) }}
 
-	cfg := sim.Config{NumAccounts: poolSize + nReq, MintOff: true,
+	cfg := sim.Config{NumAccounts: poolSize + nReq + 1, MintOff: true,
 		Balance:    sdk.NewCoins(sdk.NewInt64Coin("uband", 1_000_000_000)),
 		Validators: []sim.ValSpec{{Tokens: 10_000_000}},
 		GovVoting:  time.Duration(c.GovV) * time.Second,
@@ -201,7 +202,8 @@ func newWorld(c c18Case, v *pbt.Verdict) *world {
 	}
 	w.ch = ch
 	w.pool = ch.Users[:poolSize]
-	w.reqs = ch.Users[poolSize:]
+	w.reqs = ch.Users[poolSize : poolSize+nReq]
+	w.outsider = ch.Users[poolSize+nReq] // an account that is in no group and sends nothing but authority-only messages
 	w.moduleAcc = ch.App.AccountKeeper.GetModuleAddress(bandtsstypes.ModuleName).String()
 	ctx := ch.Ctx()
 	for _, a := range w.tracked() {
@@ -441,6 +443,75 @@ func (b *blockBuilder) build(o op) {
 		}
 		execTime := b.T.Add(time.Duration(w.c.GovV+o.B)*time.Second + time.Duration(o.Ms)*time.Millisecond)
 		b.propose("force", bandtsstypes.NewMsgForceTransitionGroup(tss.GroupID(target), execTime, sim.GovAuthority()), execTime, target)
+	case "rogue":
+		// an authority-only bandtss message sent directly in a transaction by an ordinary account. D 0: the sender names
+		// itself as authority; D 1: it names the governance account (the transaction is then signed by somebody who is not
+		// the message's signer). A: 0 MsgForceTransitionGroup, 1 MsgTransitionGroup, 2 MsgUpdateParams.
+		senders := append(append([]*sim.Account{w.outsider}, w.reqs...), w.pool...)
+		sender := pick(senders, int(o.Mask>>8))
+		authority := sender.Addr.String()
+		if o.D == 1 {
+			sender, authority = w.outsider, sim.GovAuthority()
+			if b.seen["rogue-gov"] {
+				b.inapplicable("rogue")
+				return
+			}
+			b.seen["rogue-gov"] = true
+		}
+		execTime := b.T.Add(time.Duration(o.B)*time.Second + time.Duration(o.Ms)*time.Millisecond)
+		inWindow := !execTime.Before(b.T.Add(time.Duration(w.c.Min)*time.Second)) && !execTime.After(b.T.Add(time.Duration(w.c.Max)*time.Second))
+		meta := &txMeta{kind: "rogue"}
+		var msg sdk.Msg
+		switch abs(o.A) % 3 {
+		case 0:
+			var good []uint64
+			for _, id := range w.groupIDs() {
+				if g := w.m.groups[id]; g != nil && g.status == "active" && id != w.m.cur {
+					good = append(good, id)
+				}
+			}
+			target := uint64(1)
+			if len(good) > 0 {
+				target = pick(good, int(o.Mask&0xff))
+			}
+			msg = bandtsstypes.NewMsgForceTransitionGroup(tss.GroupID(target), execTime, authority)
+			meta.what = "force"
+			// would governance's own message be accepted at this moment? (no transition pending - this block's proposals
+			// execute after its transactions -, execution time inside the window, another group with a finished key generation)
+			if len(good) > 0 && inWindow && w.m.tr == nil {
+				meta.what = "force-acceptable"
+			}
+		case 1:
+			var addrs []string
+			for i := 0; i < poolSize && len(addrs) < 4; i++ {
+				if o.Mask&(1<<uint(i)) != 0 {
+					addrs = append(addrs, w.pool[i].Addr.String())
+				}
+			}
+			if len(addrs) == 0 {
+				addrs = []string{w.pool[0].Addr.String(), w.pool[1].Addr.String()}
+			}
+			msg = bandtsstypes.NewMsgTransitionGroup(addrs, 1, execTime, authority)
+			meta.what = "transition"
+			if inWindow && w.m.tr == nil {
+				meta.what = "transition-acceptable"
+			}
+		default:
+			p := w.ch.App.BandtssKeeper.GetParams(ctx)
+			p.MaxTransitionDuration += time.Hour
+			p.MinTransitionDuration = time.Second
+			msg = bandtsstypes.NewMsgUpdateParams(authority, p)
+			meta.what = "params"
+		}
+		if o.D == 1 {
+			meta.what += "/authority=gov-signed-by-sender"
+			seq := sender.Seq
+			b.add(sender, meta, msg)
+			sender.Seq = seq // the ante handler refuses the signature: the account's sequence does not move
+		} else {
+			meta.what += "/authority=self"
+			b.add(sender, meta, msg)
+		}
 	case "dkg", "complain", "stop":
 		prog := w.inProgress()
 		if len(prog) == 0 {
@@ -1134,6 +1205,23 @@ func (w *world) observe(metas []*txMeta, res *sim.BlockResult) {
 		}
 		tr := res.Resp.TxResults[i]
 		ok := tr.Code == 0
+		if meta.kind == "rogue" {
+			// the signing group changes only through governance-scheduled transitions: a message of an ordinary account
+			// schedules nothing (the reference model is not advanced; the state comparison below checks "changes nothing")
+			kind := strings.SplitN(meta.what, "/", 2)[0]
+			w.v.Count("rogue_"+strings.ReplaceAll(kind, "-", "_"), 1)
+			w.class("non-governance-" + meta.what)
+			if strings.HasPrefix(kind, "force-acceptable") {
+				w.class("force-by-non-governance-account-when-otherwise-acceptable")
+				w.v.Count("force_by_non_governance_account_when_otherwise_acceptable", 1)
+			}
+			if ok {
+				sig := map[string]string{"force": "C18/forced-by-non-governance", "transition": "C18/transition-by-non-governance", "params": "C18/params-by-non-governance"}[strings.SplitN(kind, "-", 2)[0]]
+				w.v.Failf(sig, "height %d: %s sent directly by %s (%s) was accepted: only governance may do that (%s)", h, kind, meta.sender, meta.what, w.m.describe())
+				return
+			}
+			continue
+		}
 		if ok {
 			w.scan(tr.Events, meta, T, h)
 		}
